@@ -1963,6 +1963,89 @@ fn part_b(ctx: &mut Ctx, path: &Path) -> u64 {
     b.states.len() as u64 + histories
 }
 
+
+// ---------------------------------------------------------------------------------------------------------------
+// Part F — aliases in amounts handed to a query (Ledger::eval, `okane primitive eval`, `-X`)
+// ---------------------------------------------------------------------------------------------------------------
+//
+// "writing any of its aliases in ... amounts ... gives the same ... as writing the canonical name, and reports show
+// canonical names only": an amount written with an alias AFTER the declaration, evaluated against the loaded ledger,
+// is an amount in the canonical commodity. MUST for Ledger::eval and the `primitive eval` command; `-X <alias>` is a
+// command-line argument, not an amount: if the report is produced it must be the `-X <canonical>` report, a refusal is
+// recorded and not judged.
+fn part_f(ctx: &mut Ctx, path: &Path) -> u64 {
+    let mut n = 0u64;
+    for base in [&L2, &L3] {
+        let c = compile(base);
+        let text = c.render(&vec![0u8; c.sites.len()]);
+        for (ei, ent) in base.entities.iter().enumerate() {
+            if ent.kind != Kind::Commodity {
+                continue;
+            }
+            for alias in c.aliases[ei].clone() {
+                for form in 0..3usize {
+                    n += 1;
+                    let canonical = ent.canonical;
+                    let (expr_alias, expr_canon, want) = match form {
+                        0 => (format!("3 {}", alias), format!("3 {}", canonical), 3),
+                        1 => (format!("(1 {} + 1 {})", alias, canonical), format!("(1 {c} + 1 {c})", c = canonical), 2),
+                        _ => (format!("((2 {}) * 2)", alias), format!("((2 {}) * 2)", canonical), 4),
+                    };
+                    let text = &text;
+                    let alias = &alias;
+                    ctx.case(
+                        || format!("[part F, {}] {} given to Ledger::eval and to `okane primitive eval --date 2024-02-01 -f <file>`; `okane balance -X {}` against `-X {}`\n--- ledger ---\n{}", base.name, expr_alias, alias, canonical, text),
+                        || {
+                            let api = oka::with_ledger(&[(oka::ROOT, text.as_str())], oka::ROOT, None, |r| {
+                                let (l, rc) = match r {
+                                    Ok(x) => x,
+                                    Err(e) => return Err(format!("harness bug: base ledger rejected: {}", e.rendered)),
+                                };
+                                Ok(l.eval(rc, &expr_alias, &okane_core::report::query::EvalContext { date: oka::date(2024, 2, 1), exchange: None }).map(|a| oka::amount_to_qmap(&a)).map_err(|e| e.to_string()))
+                            });
+                            let api = match api {
+                                Ok(x) => x,
+                                Err(e) => panic!("{}", e),
+                            };
+                            let mut want_map = QMap::new();
+                            want_map.insert(canonical.to_string(), Q::int(want));
+                            match api {
+                                Err(e) => return Outcome::violation(format!("query-amount/eval-rejected-alias/{}", alias_shape(alias)), format!("Ledger::eval({:?}) after `commodity {}` declared alias {:?}: {}", expr_alias, canonical, alias, e)),
+                                Ok(m) => {
+                                    let m: QMap = m.into_iter().filter(|(_, v)| !v.is_zero()).collect();
+                                    if m != want_map {
+                                        return Outcome::violation(format!("query-amount/eval-alias-not-canonical/{}", alias_shape(alias)), format!("Ledger::eval({:?}) = {:?}, expected {} {}", expr_alias, m, want, canonical));
+                                    }
+                                }
+                            }
+                            std::fs::write(path, text).expect("write scratch ledger");
+                            let p = path.to_string_lossy().to_string();
+                            let cli = |e: &str| run_cli(&["okane", "primitive", "eval", "--date", "2024-02-01", "-f", &p, "--", e].iter().map(|x| x.to_string()).collect::<Vec<_>>());
+                            let (oa, oc) = (cli(&expr_alias), cli(&expr_canon));
+                            if !oc.starts_with("EXIT 0") {
+                                panic!("harness bug: canonical expression rejected by the command line: {}", oc);
+                            }
+                            if oa != oc {
+                                return Outcome::violation(format!("query-amount/cli-eval-alias-differs/{}", alias_shape(alias)), format!("okane primitive eval -- {:?}\n{}\nokane primitive eval -- {:?}\n{}", expr_alias, oa, expr_canon, oc));
+                            }
+                            let bal = |x: &str| run_cli(&["okane", "balance", "-X", x, "--now", "2024-02-01", &p].iter().map(|x| x.to_string()).collect::<Vec<_>>());
+                            let (ba, bc) = (bal(alias), bal(canonical));
+                            if !ba.starts_with("EXIT 0") {
+                                return Outcome::dont_care("query-amount/alias-ok/-X-alias-refused-not-judged");
+                            }
+                            if ba != bc {
+                                return Outcome::violation(format!("query-amount/-X-alias-report-differs/{}", alias_shape(alias)), format!("okane balance -X {:?}\n{}\nokane balance -X {:?}\n{}", alias, ba, canonical, bc));
+                            }
+                            Outcome::pass("query-amount/alias-ok/-X-alias-same-report")
+                        },
+                    );
+                }
+            }
+        }
+    }
+    n
+}
+
 fn run(ctx: &mut Ctx) {
     let dir: PathBuf = oka::scratch_dir("c12");
     let path = dir.join(format!("case-{}.ledger", ctx.shard));
@@ -1971,8 +2054,10 @@ fn run(ctx: &mut Ctx) {
     let c_states = part_c(ctx, &path, &dpath);
     let d_forms = part_d(ctx, &path);
     let e_cases = part_e(ctx, &path);
+    let f_cases = part_f(ctx, &path);
     let b_states = part_b(ctx, &path);
-    ctx.fact("states", a_states + b_states + c_states + d_forms + e_cases);
+    ctx.fact("F_alias_query_cases", f_cases);
+    ctx.fact("states", a_states + b_states + c_states + d_forms + e_cases + f_cases);
     ctx.fact("C_distinct_ledger_and_price_db_pairs", c_states);
     ctx.fact("A_distinct_ledgers", a_states);
     ctx.fact("B_states_plus_histories", b_states);
